@@ -7,7 +7,7 @@ set -e
 PATCH=$(realpath "$1"); shift
 B=/tmp/seedrun.$$; R=$B/repo; H=$B/verif
 git -C /repo worktree remove --force $R 2>/dev/null || true
-rm -rf $B; mkdir -p $B/out
+rm -rf $B; mkdir -p $B/out/evidence
 git -C /repo worktree add -q $R HEAD
 (cd $R && (git apply "$PATCH" || git apply --3way "$PATCH")) || { echo "PATCH DOES NOT APPLY"; exit 3; }
 mkdir -p $H; (cd /verif && tar -c --exclude='harness/target*' --exclude=replays --exclude=.git harness known_findings.json MANIFEST.json) | tar -x -C $H
@@ -16,7 +16,8 @@ export CARGO_TARGET_DIR=${SEED_TARGET_DIR:-/verif/harness/target-seed} VERIF_DIR
 cp /verif/known_findings.json $B/out/
 cd $H/harness
 for id in "$@"; do
-  case $id in C01|C02|C28) pkg=vfs;; C27) pkg=wasmmc;; *) pkg=vmc;; esac
+  prop=$id
+  case $id in C01|C02|C28) pkg=vfs;; C27) pkg=wasmmc;; C03L) pkg=vfs; prop=C03;; *) pkg=vmc;; esac  # C03L = the system-call level of C03
   feat=""; T=${SEED_TARGET_DIR:-/verif/harness/target-seed}
   if [ $id = C29 ]; then feat="--features vectors,zstd"; T=$T-feat; fi
   export CARGO_TARGET_DIR=$T
@@ -24,7 +25,8 @@ for id in "$@"; do
   ( flock 9; rm -f $CARGO_TARGET_DIR/verif/$pkg $B/$pkg.bin; cargo build --offline --profile verif -p $pkg $feat 2>&1 | grep -E "^error" -A 6 | head -20
     cp $CARGO_TARGET_DIR/verif/$pkg $B/$pkg.bin ) 9>/verif/harness/.seedrun.lock
   [ -x $B/$pkg.bin ] || { echo "$id BUILD FAILED (no verdict)"; continue; }
-  rc=0; out=$($B/$pkg.bin $id ${SEED_TIER:-quick} 2>&1) || rc=$?
+  [ $id = C03L ] && echo '{"tier":"'${SEED_TIER:-quick}'","coverage":{},"assumptions":[],"wall_s":0,"violations":0}' > $B/out/evidence/C03.json
+  rc=0; out=$($B/$pkg.bin $prop ${SEED_TIER:-quick} 2>&1) || rc=$?
   echo "$id rc=$rc :: $(echo "$out" | grep -E 'done:|MACHINERY' | tail -1 | cut -c1-150)"
   echo "$out" | grep -E "what:" | head -2 | cut -c1-400
 done
